@@ -12,9 +12,10 @@ import (
 
 // Clause is one requires/ensures/invariant clause (already split into conjuncts).
 type Clause struct {
-	E    *Expr
-	Text string
-	Line string // file:line of the clause, informational
+	E     *Expr
+	Text  string
+	Line  string // file:line of the clause, informational
+	Ghost bool   // `callsite CALLEE ghost G == EXPR`: ghost assignment after the call, not an assertion
 }
 
 type LoopSpec struct {
@@ -193,6 +194,15 @@ func (cs *ContractSet) parseContractText(file, pkgName string, text string) erro
 					cur.CallSitesPost = map[string][]Clause{}
 				}
 				cur.CallSitesPost[p.cb] = append(cur.CallSitesPost[p.cb], cls...)
+			case "callsiteghost":
+				if cur.CallSitesPost == nil {
+					cur.CallSitesPost = map[string][]Clause{}
+				}
+				if e.Op != "bin" || e.Name != "==" || len(e.Args) != 2 || e.Args[0].Op != "id" {
+					return fmt.Errorf("%s: callsite ghost clause must be G == EXPR", where)
+				}
+				// ghost assignments come first: assertions after the same call see the updated ghost
+				cur.CallSitesPost[p.cb] = append([]Clause{{E: e, Text: "ghost " + e.String(), Line: where, Ghost: true}}, cur.CallSitesPost[p.cb]...)
 			case "panics":
 				cur.PanicsIff = &Clause{E: e, Text: e.String(), Line: where}
 			}
@@ -310,12 +320,17 @@ func (cs *ContractSet) parseContractText(file, pkgName string, text string) erro
 			// callsite CALLEE requires EXPR: an assertion checked at every call of CALLEE inside this function, over the
 			// caller's locals, the arguments (arg0, arg1.. ; for methods arg0 is the receiver) and old(...)
 			f := strings.Fields(rest)
-			if cur == nil || len(f) < 3 || (f[1] != "requires" && f[1] != "ensures") {
-				return fmt.Errorf("%s:%d: bad callsite clause (callsite CALLEE requires|ensures EXPR)", file, ln+1)
+			if cur == nil || len(f) < 3 || (f[1] != "requires" && f[1] != "ensures" && f[1] != "ghost") {
+				return fmt.Errorf("%s:%d: bad callsite clause (callsite CALLEE requires|ensures|ghost EXPR)", file, ln+1)
 			}
 			body := strings.TrimSpace(strings.TrimPrefix(strings.TrimSpace(strings.TrimPrefix(rest, f[0])), f[1]))
 			if f[1] == "requires" {
 				addPending("callsite", body, 0, f[0])
+			} else if f[1] == "ghost" {
+				// callsite CALLEE ghost G == EXPR: specification-only assignment to the ghost variable G (listed in this
+				// contract's modifies) performed right after every call of CALLEE; EXPR is evaluated like an ensures clause
+				// of the call site (result names, arg names, locals), with G standing for its value before the assignment
+				addPending("callsiteghost", body, 0, f[0])
 			} else {
 				addPending("callsitepost", body, 0, f[0])
 			}
